@@ -1342,7 +1342,7 @@ func collectPinned(P *Program) map[string]bool {
 			for i := 0; i < v.NumField(); i++ {
 				f := v.Field(i)
 				name := v.Type().Field(i).Name
-				if name == "HandlerFuncs" || name == "ProcessImpls" || name == "P" || name == "R" {
+				if name == "HandlerFuncs" || name == "ProcessImpls" || name == "OKWriters" || name == "P" || name == "R" {
 					continue
 				}
 				if !v.Type().Field(i).IsExported() {
